@@ -17,7 +17,7 @@ change.seq) — actor first on both sides.
 Not decided: byte-level round-trip of whole changes and bundles (values, run-length encodings).
 """
 from .. import cfg, util, facts, tables
-from ..util import norm_fn
+from ..util import norm_fn, callee
 from . import C14
 
 T = {
@@ -71,6 +71,11 @@ def inverse_check(ctx, name, enc, dec, floor, wildcard_ok):
 
 
 def run(ctx):
+    _run18(ctx)
+    check_change_identity(ctx, ctx.facts())
+
+
+def _run18(ctx):
     ctx.level = "proof"
     ctx.decides = ("Action<->u64, ChunkType<->u8, ColumnType<->u8 and ValueType<->code tables are mutually inverse; decoders map unknown tags to Err / Unknown / (for the 3-bit ColumnType) cover all 8 values; "
                    "the three ValueMeta encoders agree with each other and with type_code(); the three Action<->ObjType codec tables agree; the compressed-change path keeps the wire checksum.")
@@ -79,6 +84,8 @@ def run(ctx):
     ctx.rule("R5-sibling", "tables implementing the same mapping in different places agree arm by arm")
     ctx.rule("R5-encpair", "row-wise encoder: each XRange::from is preceded (latest dominating finish) by XEncoder::finish of the same family")
     ctx.rule("R5-order", "bundle ID_CTR_INVERSE: writer and reader sort keys are (elem.0, elem.1) with the actor as first component on both sides")
+    ctx.rule("R5-eq", "<Change as PartialEq>::eq reads the stored change only: the compression cache (.compression) takes no part in equality (a change parsed from its compressed bytes equals the change)")
+    ctx.rule("R5-set", "Bundle::for_hashes hands ChangeGraph::get_bundle_metadata a de-duplicated hash sequence (a filter whose closure inserts into a set, a dedup after a sort, or a set collection): one change row per distinct hash")
     ctx.rule("R5-body", "the payload handed to the DEFLATE encoder in Compressed::compress is the chunk body to its end: Change::body_bytes slices self.bytes from header.len() with an open end (or an end taken from len())")
     f = ctx.facts()
     from . import C10
@@ -250,3 +257,39 @@ def check_body(ctx, f):
         ok = end_is_len and not fields
         ctx.ob("R5-body", k, ok, t["sp"], "range ends at len()" if ok else
                "the compressed body stops at a column boundary (%s) instead of the end of the chunk: bytes after it (extra_bytes) are lost when the change is compressed, so from_bytes(compressed) has another hash" % (fields or "not len()"))
+
+
+def check_change_identity(ctx, f):
+    EQ = [p for p in f.fns if p == "<automerge::change::Change as core::cmp::PartialEq>::eq"]
+    if len(EQ) != 1:
+        raise facts.AnchorMissing("<Change as PartialEq>::eq")
+    b = cfg.body(f.fns[EQ[0]])
+    ctx.analysed_fns.add(EQ[0])
+    flds = set()
+    for blk in b.blocks:
+        for st in blk["st"]:
+            for pl in [st["rv"].get("p")] + [o.get("c") or o.get("m") for o in st["rv"].get("o", ())]:
+                if pl:
+                    flds |= {e for e in b.origin(pl["l"], tuple(pl["p"]))[1] if e.startswith(".")}
+        t = blk["t"]
+        for a in t.get("args", []) if t["k"] == "call" else []:
+            pl = a.get("c") or a.get("m")
+            if pl:
+                flds |= {e for e in b.origin(pl["l"], tuple(pl["p"]))[1] if e.startswith(".")}
+    ok = ".stored" in flds and ".compression" not in flds
+    ctx.ob("R5-eq", "Change::eq|content only", ok, b.rec["sp"], "compares .stored; the compression cache is not read" if ok else
+           "Change equality reads %s: a clone whose compressed bytes were computed, or the same change parsed from its compressed chunk, is unequal to the original although hash and raw bytes are identical" % sorted(flds))
+    FH = [p for p in f.fns if norm_fn(p) == "automerge::storage::bundle::Bundle::for_hashes"]
+    if len(FH) != 1:
+        raise facts.AnchorMissing("Bundle::for_hashes")
+    h = cfg.body(f.fns[FH[0]])
+    ctx.analysed_fns.add(FH[0])
+    metas = [(bi, t) for bi, t in h.calls() if (callee(t) or "").endswith("ChangeGraph::get_bundle_metadata")]
+    ctx.floor("get_bundle_metadata calls in Bundle::for_hashes", len(metas), 1)
+    for k, (bi, t) in util.ordinal_keys(metas, lambda it: "for_hashes|hashes are a set"):
+        pv = h.provenance(t["args"][1], through_calls=True)
+        names = {(norm_fn(c) or "").split("::")[-1] for c in pv.callees()}
+        set_filter = any(any((norm_fn(tt.get("fn")) or "").endswith(("HashSet::insert", "BTreeSet::insert")) for _, tt in f.calls(f.fns[cl])) for cl in pv.closures if cl in f.fns)
+        ok = set_filter or "dedup" in names or any("BTreeSet" in (norm_fn(c) or "") or "HashSet" in (norm_fn(c) or "") for c in pv.callees() if (norm_fn(c) or "").endswith(("from_iter", "collect")))
+        ctx.ob("R5-set", k, ok, t["sp"], "de-duplicated before the bundle rows are built" if ok else
+               "every listed hash becomes a change row of the bundle, repeated ones too, while each op goes to one row only: bundle([h, h]) cannot be unbundled (MissingOps)")
